@@ -1,0 +1,9 @@
+//go:build verif
+// +build verif
+
+package partition
+
+// VC10PendingWriteEvents returns the number of WriteEvents sitting in the notification channel
+func (s *Service) VC10PendingWriteEvents() int {
+	return len(s.weCh)
+}
